@@ -492,6 +492,18 @@ func (watchStream) Execute(c Case) {
 				break
 			}
 		}
+		// ... and the cache keeps following the directory afterwards, whatever the watcher did about the loss
+		if converged {
+			time.Sleep(300 * time.Millisecond)
+			_ = os.WriteFile(filepath.Join(d, "zzz-post.json"), specBytesOf("post.com/class", "post", 1), 0o644)
+			converged = false
+			for deadline := time.Now().Add(6 * time.Second); time.Now().Before(deadline); time.Sleep(50 * time.Millisecond) {
+				if cache.GetDevice("post.com/class=dev0") != nil {
+					converged = true
+					break
+				}
+			}
+		}
 		obs["converged"], obs["scanms"] = converged, scan.Milliseconds()
 	case "slowscan":
 		late := filepath.Join(watchRoot, "late")
